@@ -47,6 +47,8 @@ ASSUMPTIONS = [
     'soaks in which asynchronous interrupts were injected record their growth but are not judged (an abort is not an evaluation in the sense of the statement)',
     'generated text constants cannot be parsed as partial dates (Excel itself is clock dependent there)',
     'an interrupted or transiently failed call makes no claim about its own result',
+    'in a soak every round must repeat the outcomes (canonical value or exception class) of round 1; calls hit by an injected interrupt are skipped',
+    'a constant holding an object (an Excel error value) is snapshot with its instance state, not only its canonical value',
 ]
 _CONTAINERS = (list, dict, set, deque, OrderedDict, defaultdict)
 SAFETY_STEPS = 2_000_000
